@@ -1324,12 +1324,12 @@ func c25(c *rig.Ctx) {
 	n := c.Pick(36, 900)
 	for i := 0; i < n; i++ {
 		c25program(c, box, i, st, kinds)
-		if c.Violations() > 25 {
+		if c.UnlistedViolations() > 25 {
 			break
 		}
 	}
 	var sc *scStats
-	if c.Violations() <= 25 {
+	if c.UnlistedViolations() <= 25 {
 		sc = c25singleColumn(c, box, st)
 	}
 	c.Count("c25.roots_checked", st.roots)
